@@ -10,7 +10,11 @@
      projects those main keys away.  [bk_stale] records children whose content was changed
      through the child trie object without re-registering it (TrieState's non-transactional
      DeleteChildLimit / ClearPrefixInChild[WithLimit]): their root entry is out of date.
-   - [cfg] switches between the pinned behaviour and the behaviour after the proposed fixes. *)
+   - [cfg] switches between the pinned behaviour and the behaviour after the fixes (one flag per
+     repaired defect; cfg_pre7 = the tree before fix C08-7).
+   - Child tries are independent maps.  The in-memory trie used to keep child tries with equal
+     contents as ONE object (childTries is keyed by root hash); fix C08-6 makes them independent,
+     which is what the model says.  The aliasing itself is not modelled. *)
 From Common Require Import Bytes.
 From C08 Require Import ModelMap.
 Local Open Scope N_scope.
@@ -23,9 +27,40 @@ Record cfg := mk_cfg {
                               (deletedChildTries) and hide the child's content in the state *)
   fix_child_direct : bool; (* outside a transaction, bulk deletions in a child trie go through
                               ClearFromChild (the child root in the parent stays up to date) *)
+  fix_child_prefix : bool; (* ClearPrefix / ClearPrefixLimit refuse a prefix that is part of, or
+                              contains, ":child_storage:" (fix C08-7); before, the child trie
+                              roots kept in the main trie were cleared like ordinary keys *)
 }.
-Definition cfg_pinned : cfg := mk_cfg false false false false false.
-Definition cfg_fixed : cfg := mk_cfg true true true true true.
+Definition cfg_pinned : cfg := mk_cfg false false false false false false.
+Definition cfg_fixed : cfg := mk_cfg true true true true true true.
+(* the tree after fixes C08-1..5, before C08-7 (diagnostics and the refutation witness) *)
+Definition cfg_pre7 : cfg := mk_cfg true true true true true false.
+
+(* ------------------------------------------------------------------ child storage keys *)
+
+(* ":child_storage:" (sp_core::storage::well_known_keys::CHILD_STORAGE_KEY_PREFIX) *)
+Definition child_storage_prefix : key :=
+  map n2b [58; 99; 104; 105; 108; 100; 95; 115; 116; 111; 114; 97; 103; 101; 58].
+(* ":child_storage:default:" (pkg/trie/inmemory ChildStorageKeyPrefix): the root of child trie
+   [name] is kept in the main trie under child_root_prefix ++ name *)
+Definition child_root_prefix : key :=
+  child_storage_prefix ++ map n2b [100; 101; 102; 97; 117; 108; 116; 58].
+Definition child_root_key (name : key) : key := child_root_prefix ++ name.
+
+(* starts_with_child_storage_key: keys with this prefix may be child storage keys *)
+Definition covers_child_keys (p : key) : bool :=
+  if Nat.ltb (length child_storage_prefix) (length p)
+  then has_prefix child_storage_prefix p
+  else has_prefix p child_storage_prefix.
+
+(* the name of the child trie whose root is kept under main key k *)
+Fixpoint strip_prefix (p k : key) : option key :=
+  match p, k with
+  | [], _ => Some k
+  | x :: p', y :: k' => if b2n x =? b2n y then strip_prefix p' k' else None
+  | _ :: _, [] => None
+  end.
+Definition child_of_root_key (k : key) : option key := strip_prefix child_root_prefix k.
 
 (* ------------------------------------------------------------------ storageDiff *)
 
@@ -184,6 +219,22 @@ Definition trie_clear_prefix_limit (m : omap val) (prefix : key) (limit : N)
 Definition state_keys_with_prefix (cf : cfg) (m : omap val) (prefix : key) : list key :=
   filter (fun k => has_prefix prefix k && (fix_prefix_key cf || negb (keqb k prefix))) (om_keys m).
 
+(* pre-7: the child trie roots are main-trie keys for ClearPrefix / ClearPrefixLimit *)
+Definition root_keys (b : backing) : list key := map (fun cm => child_root_key (fst cm)) (bk_children b).
+Definition main_with_roots (b : backing) : omap val :=
+  fold_left (fun m k => om_put k [] m) (root_keys b) (bk_main b).
+(* back from a main map with roots: children whose root key is gone are unregistered *)
+Definition drop_cleared_children (b : backing) (m' : omap val) : backing :=
+  mk_backing (om_filter (fun k => match child_of_root_key k with Some _ => false | None => true end) m')
+             (filter (fun cm => om_mem (child_root_key (fst cm)) m') (bk_children b))
+             (bk_stale b).
+
+(* the committed keys ClearPrefix / ClearPrefixLimit collect inside a transaction; pre-7 the
+   child trie roots are among them *)
+Definition state_keys_cp (cf : cfg) (b : backing) (prefix : key) : list key :=
+  if fix_child_prefix cf then state_keys_with_prefix cf (bk_main b) prefix
+  else state_keys_with_prefix cf (main_with_roots b) prefix.
+
 (* PrefixedIter(k).NextKeyFunc(not deleted) *)
 Fixpoint next_not_deleted (k : key) (m : omap val) (deleted : kset) : option key :=
   match m with
@@ -212,11 +263,15 @@ Definition apply_diff (cf : cfg) (D : diff) (b : backing) : backing :=
   let b0 := fold_left bk_delete_child (om_keys (d_killed D)) b in
   let b1 := fold_left (fun b kv => bk_put b (fst kv) (snd kv)) (ups (d_main D)) b0 in
   let b2 := fold_left (fun b ccd => apply_child b (fst ccd) (snd ccd)) (d_children D) b1 in
-  fold_left (fun b k => if fix_child_ns cf then bk_del b k
-                        else match bk_get_child b k with
-                             | Some _ => bk_delete_child b k
-                             | None => bk_del b k
-                             end) (om_keys (dels (d_main D))) b2.
+  fold_left (fun b k => match (if fix_child_prefix cf then None else child_of_root_key k) with
+                        | Some name => bk_delete_child b name   (* pre-7: a cleared child root *)
+                        | None =>
+                          if fix_child_ns cf then bk_del b k
+                          else match bk_get_child b k with
+                               | Some _ => bk_delete_child b k
+                               | None => bk_del b k
+                               end
+                        end) (om_keys (dels (d_main D))) b2.
 
 (* the child trie below the current transaction: gone once the transaction deleted it *)
 Definition child_on_state (cf : cfg) (D : diff) (b : backing) (c : key) : option (omap val) :=
@@ -287,16 +342,29 @@ Definition step (cf : cfg) (o : op) (s : tstate) : obs * tstate :=
   | ODel k, [] => (RUnit, with_state s (bk_del b k))
   | ODel k, D :: _ => (RUnit, with_top s (d_delete cf D k))
   | OClearPrefix p, [] =>
-    (RUnit, with_state s (mk_backing (trie_clear_prefix (bk_main b) p) (bk_children b) (bk_stale b)))
+    if fix_child_prefix cf then
+      if covers_child_keys p then (RUnit, s)
+      else (RUnit, with_state s (mk_backing (trie_clear_prefix (bk_main b) p) (bk_children b) (bk_stale b)))
+    else (RUnit, with_state s (drop_cleared_children b (trie_clear_prefix (main_with_roots b) p)))
   | OClearPrefix p, D :: _ =>
-    let '(D', _, _) := d_clear_prefix cf D p (state_keys_with_prefix cf (bk_main b) p) (-1)%Z in
-    (RUnit, with_top s D')
+    if fix_child_prefix cf && covers_child_keys p then (RUnit, s)
+    else
+      let '(D', _, _) := d_clear_prefix cf D p (state_keys_cp cf b p) (-1)%Z in
+      (RUnit, with_top s D')
   | OClearPrefixLimit p n, [] =>
-    let '(m', d, a) := trie_clear_prefix_limit (bk_main b) p n in
-    (RCount d a, with_state s (mk_backing m' (bk_children b) (bk_stale b)))
+    if fix_child_prefix cf then
+      if covers_child_keys p then (RCount 0 true, s)
+      else
+        let '(m', d, a) := trie_clear_prefix_limit (bk_main b) p n in
+        (RCount d a, with_state s (mk_backing m' (bk_children b) (bk_stale b)))
+    else
+      let '(m', d, a) := trie_clear_prefix_limit (main_with_roots b) p n in
+      (RCount d a, with_state s (drop_cleared_children b m'))
   | OClearPrefixLimit p n, D :: _ =>
-    let '(D', d, a) := d_clear_prefix cf D p (state_keys_with_prefix cf (bk_main b) p) (Z.of_N n) in
-    (RCount d a, with_top s D')
+    if fix_child_prefix cf && covers_child_keys p then (RCount 0 true, s)
+    else
+      let '(D', d, a) := d_clear_prefix cf D p (state_keys_cp cf b p) (Z.of_N n) in
+      (RCount d a, with_top s D')
   | ONext k, [] => (RVal (om_next k (bk_main b)), s)
   | ONext k, D :: _ =>
     (RVal (merge_next (om_next k (ups (d_main D)))
